@@ -1010,6 +1010,13 @@ func (g *Gen) genKind(k string) *Op {
 		if a == nil {
 			return nil
 		}
+		if r.Chance(0.08) {
+			// an account without a node of its own (possibly listed as somebody's transaction address)
+			if x := g.pickActor(w.Actors); x != nil {
+				a = x
+				e.probe("node_reset_by_arbitrary_account")
+			}
+		}
 		st := fullStatus
 		if r.Chance(0.35) {
 			st = int64([]uint32{0, 1, 1 | 4, 1 | 4 | 8, 1 | 2 | 8, 4 | 8}[r.Intn(6)])
